@@ -387,11 +387,17 @@ func (s *Stream) Close() {
 
 	s.inboundFramesInError.Stop()
 
-	if s.rtspStream != nil {
-		s.rtspStream.Close()
+	// RTSPStream() and RTSPSStream() set these from other routines
+	s.mutex.RLock()
+	rtspStream := s.rtspStream
+	rtspsStream := s.rtspsStream
+	s.mutex.RUnlock()
+
+	if rtspStream != nil {
+		rtspStream.Close()
 	}
-	if s.rtspsStream != nil {
-		s.rtspsStream.Close()
+	if rtspsStream != nil {
+		rtspsStream.Close()
 	}
 }
 
